@@ -89,7 +89,7 @@ def calls_in(e, *names):
 
 def simp(e):
     """Strip blocks that only wrap an expression, and `{ expr }` without statements."""
-    while isinstance(e, dict) and e.get("k") == "block" and not e.get("stmts") and "expr" in e and "unsafe" not in e:
+    while isinstance(e, dict) and e.get("k") == "block" and not e.get("stmts") and "expr" in e and "unsafe" not in e and "label" not in e:
         e = e["expr"]
     return e
 
@@ -552,10 +552,11 @@ class Path:
        ('eval', expr)  (expression evaluated for effect);  value = result expression or None; exit = 'value'|'ret'|'break'|'continue'|'diverge'
     """
 
-    def __init__(self, trace=None, value=None, exit="value"):
+    def __init__(self, trace=None, value=None, exit="value", label=None):
         self.trace = trace or []
         self.value = value
         self.exit = exit
+        self.label = label
 
     def conds(self):
         return [t for t in self.trace if t[0] in ("cond", "arm")]
@@ -576,7 +577,7 @@ def _seq(prefixes, e):
             out.append(p)
             continue
         for q in _paths(e):
-            out.append(Path(p.trace + q.trace, q.value, q.exit))
+            out.append(Path(p.trace + q.trace, q.value, q.exit, q.label))
     return out
 
 
@@ -590,9 +591,12 @@ def _paths(e):
         for s in e.get("stmts", []):
             cur = _seq(cur, s)
             # the value of a statement is discarded
-            cur = [Path(p.trace, None if p.exit == "value" else p.value, p.exit) for p in cur]
+            cur = [Path(p.trace, None if p.exit == "value" else p.value, p.exit, p.label) for p in cur]
         if "expr" in e:
             cur = _seq(cur, e["expr"])
+        if e.get("label"):
+            # an inlined helper: its `return v` is `break 'label v` — the block's value
+            cur = [Path(p.trace, p.value, "value") if (p.exit == "break" and p.label == e["label"]) else p for p in cur]
         return cur
     if k == "let":
         if "els" in e:
@@ -616,7 +620,7 @@ def _paths(e):
                 out.append(Path(pre, None, "value"))
             else:
                 for q in _paths(br):
-                    out.append(Path(pre + q.trace, q.value, q.exit))
+                    out.append(Path(pre + q.trace, q.value, q.exit, q.label))
         return out
     if k == "match":
         if e.get("src") == "ForLoopDesugar":
@@ -628,8 +632,14 @@ def _paths(e):
                 if p.exit != "value":
                     out.append(p)
                     continue
-                out.append(Path(p.trace + [("try-err", inner)], None, "ret-err"))
-                out.append(Path(p.trace + [("try-ok", inner)], inner, "value"))
+                v = simp(p.value) if isinstance(p.value, dict) else {}
+                # a value known to be the error / success case (an inlined helper's own `?` or its final Ok(..)) takes one side
+                known_err = is_call(v, "FromResidual::from_residual") or (v.get("k") == "call" and str(v.get("ctor", "")).endswith("Result::Err"))
+                known_ok = v.get("k") == "call" and str(v.get("ctor", "")).endswith(("Result::Ok", "Option::Some"))
+                if not known_ok:
+                    out.append(Path(p.trace + [("try-err", inner)], None, "ret-err"))
+                if not known_err:
+                    out.append(Path(p.trace + [("try-ok", inner)], v["args"][0] if known_ok else inner, "value"))
             return out
         out = []
         for sp in _paths(e["scrut"]):
@@ -644,7 +654,7 @@ def _paths(e):
                 else:
                     prior.append(a["pat"])
                 for q in _paths(a["body"]):
-                    out.append(Path(pre + q.trace, q.value, q.exit))
+                    out.append(Path(pre + q.trace, q.value, q.exit, q.label))
         return out
     if k == "loop":
         raise Unrecognised("loop in path enumeration")
@@ -656,7 +666,9 @@ def _paths(e):
             return out
         return [Path([], None, "ret")]
     if k == "break":
-        return [Path([], e.get("e"), "break")]
+        if "e" in e and e.get("to_block"):
+            return [Path(p.trace, p.value, "break" if p.exit == "value" else p.exit, e.get("label") if p.exit == "value" else p.label) for p in _paths(e["e"])]
+        return [Path([], e.get("e"), "break", e.get("label"))]
     if k == "continue":
         return [Path([], None, "continue")]
     if k == "assign" or k == "assignop":
@@ -780,6 +792,19 @@ def pat_matches(p, v):
         if v[0] == "enum":
             return p.get("path") == v[1]
         return False if v[0] == "other" else None
+    if k in ("pts", "pstruct"):
+        # a variant pattern whose sub-patterns bind or ignore: decided by the variant alone
+        subs = p.get("pats") if k == "pts" else [f["p"] for f in p.get("fields", [])]
+        if v[0] == "enum" and all(q.get("k") in ("pbind", "pwild") for q in (subs or [])):
+            return pat_path(p) == v[1]
+        return False if v[0] == "other" else None
+    if k == "ptuple":
+        if v[0] == "tuple" and len(v) - 1 == len(p.get("pats", [])):
+            rs = [pat_matches(q, x) for q, x in zip(p["pats"], v[1:])]
+            if any(r is False for r in rs):
+                return False
+            return None if any(r is None for r in rs) else True
+        return None
     if k == "lit":
         if v[0] in ("int", "bool", "str"):
             return p.get("v") == v[1]
